@@ -1,8 +1,12 @@
 #!/usr/bin/env python3
-"""Development aid (not a registered check): apply each seeded change under /verif/seeded to /repo,
-run the quick check of the property it breaks, undo the change, and record in meta.json which
-obligations fired.  Usage: lib/seedsweep.py [name-regex] [--tier quick|thorough] [--props C05,C06]"""
-import json, os, re, subprocess, sys
+"""Development aid (not a registered check): for each seeded change under /verif/seeded, copy /repo (sources only) to a
+scratch directory, apply the change there, run the quick check of the property it breaks against that copy
+(VERIF_REPO=<copy>), delete the copy, and record in meta.json which obligations fired.  /repo itself is never touched, so
+other checks can run meanwhile.  Equivalent to `git -C /repo apply <patch>; ./check <prop>; git -C /repo checkout -- .`.
+
+Usage: lib/seedsweep.py [name-regex] [--tier quick|thorough] [--props C05,C06] [--par N] [--matrix]"""
+import json, os, re, shutil, subprocess, sys, tempfile
+from concurrent.futures import ThreadPoolExecutor
 
 VERIF = os.path.dirname(os.path.dirname(os.path.abspath(__file__)))
 REPO = '/repo'
@@ -12,49 +16,93 @@ def sh(cmd, **kw):
     return subprocess.run(cmd, shell=True, stdout=subprocess.PIPE, stderr=subprocess.STDOUT, **kw)
 
 
-def main():
-    args = [a for a in sys.argv[1:] if not a.startswith('--')]
-    pat = args[0] if args else '.'
-    tier = 'quick'
-    props_override = None
-    for i, a in enumerate(sys.argv):
-        if a == '--tier':
-            tier = sys.argv[i + 1]
-        if a == '--props':
-            props_override = sys.argv[i + 1].split(',')
-    if sh(f'git -C {REPO} status --porcelain --untracked-files=no').stdout.strip():
-        print('refusing: /repo has uncommitted changes')
-        return 2
-    rows = []
-    for d in sorted(os.listdir(os.path.join(VERIF, 'seeded'))):
-        if not re.search(pat, d):
-            continue
-        sd = os.path.join(VERIF, 'seeded', d)
-        mp = os.path.join(sd, 'meta.json')
-        if not os.path.exists(mp):
-            continue
-        meta = json.load(open(mp))
-        props = props_override or [meta['property']]
-        r = sh(f'git -C {REPO} apply {sd}/patch.diff')
+def one(d, tier, props_override, jobs):
+    sd = os.path.join(VERIF, 'seeded', d)
+    mp = os.path.join(sd, 'meta.json')
+    meta = json.load(open(mp))
+    props = props_override or [meta['property']]
+    tmp = tempfile.mkdtemp(prefix='seedrepo.')
+    try:
+        sh(f'rsync -a --exclude _build --exclude .git {REPO}/ {tmp}/')
+        r = sh(f'patch -p1 -s -d {tmp} < {sd}/patch.diff')
         if r.returncode != 0:
-            print(d, 'PATCH DOES NOT APPLY', r.stdout.decode()[:300])
-            continue
-        try:
-            det = {}
-            for p in props:
-                q = sh(f'{VERIF}/check {p} --tier {tier} --no-evidence', cwd=VERIF)
-                out = q.stdout.decode('utf-8', 'replace')
-                fired = re.findall(r'^FAILED-OBLIGATION (\S+): (.*)$', out, re.M)
-                und = re.findall(r'^UNDECIDED (.*)$', out, re.M)
-                viol = re.findall(r'^VIOLATION .*$', out, re.M)
-                det[p] = {'rc': q.returncode, 'violations': viol, 'fired': [f'{a}: {b[:300]}' for a, b in fired], 'undecided': und[:5]}
-                rows.append((d, p, q.returncode, '; '.join(a for a, _ in fired) or ('UNDECIDED ' + '; '.join(und)[:200] if und else '-')))
-                print(f'{d:45s} {p} rc={q.returncode} ' + rows[-1][3], flush=True)
-        finally:
-            sh(f'git -C {REPO} checkout -- .')
+            return d, None, 'PATCH DOES NOT APPLY ' + r.stdout.decode()[:200]
+        det = {}
+        line = []
+        for p in props:
+            env = dict(os.environ, VERIF_REPO=tmp)
+            q = subprocess.run(f'{VERIF}/check {p} --tier {tier} --no-evidence --jobs {jobs}', shell=True, cwd=VERIF, env=env,
+                               stdout=subprocess.PIPE, stderr=subprocess.STDOUT)
+            out = q.stdout.decode('utf-8', 'replace')
+            fired = re.findall(r'^FAILED-OBLIGATION (\S+): (.*)$', out, re.M)
+            und = re.findall(r'^UNDECIDED (.*)$', out, re.M)
+            viol = re.findall(r'^VIOLATION .*$', out, re.M)
+            det[p] = {'rc': q.returncode, 'violations': [v.replace(tmp, '/repo') for v in viol],
+                      'fired': [f'{a}: {b[:300]}'.replace(tmp, '/repo') for a, b in fired], 'undecided': [u[:200] for u in und[:5]]}
+            line.append(f'{p} rc={q.returncode} ' + ('; '.join(a for a, _ in fired) or ('UNDECIDED ' + '; '.join(und)[:160] if und else '-')))
         if not props_override:
             meta['detected_by'] = det
             json.dump(meta, open(mp, 'w'), indent=1)
+        return d, det, ' | '.join(line)
+    finally:
+        shutil.rmtree(tmp, ignore_errors=True)
+
+
+def matrix():
+    rows = ['| seeded change | property | needs to manifest | caught by (quick check of that property) |', '|---|---|---|---|']
+    for d in sorted(os.listdir(os.path.join(VERIF, 'seeded'))):
+        mp = os.path.join(VERIF, 'seeded', d, 'meta.json')
+        if not os.path.exists(mp):
+            continue
+        m = json.load(open(mp))
+        det = m.get('detected_by')
+        if not isinstance(det, dict):
+            got = 'not run yet'
+        else:
+            parts = []
+            for p, r in det.items():
+                if r['rc'] == 1:
+                    parts.append(', '.join(sorted({f.split(':')[0] for f in r['fired']})))
+                elif r['rc'] == 2:
+                    parts.append('undecided (' + '; '.join(r['undecided'])[:80] + ')')
+                else:
+                    parts.append('**missed**')
+            got = '; '.join(parts)
+        rows.append(f"| {d} | {m['property']} | {m.get('needs_to_manifest', '')[:110]} | {got} |")
+    txt = '\n'.join(rows) + '\n'
+    path = os.path.join(VERIF, 'DESIGN.md')
+    s = open(path).read()
+    a, b = '<!-- BEGIN SEED MATRIX -->', '<!-- END SEED MATRIX -->'
+    if a in s and b in s:
+        s = s[:s.index(a) + len(a)] + '\n' + txt + s[s.index(b):]
+        open(path, 'w').write(s)
+        print('seed matrix written to DESIGN.md')
+    else:
+        print(txt)
+
+
+def main():
+    args = [a for a in sys.argv[1:] if not a.startswith('--')]
+    if '--matrix' in sys.argv:
+        matrix()
+        return 0
+    tier, props_override, par = 'quick', None, 2
+    skip = set()
+    for i, a in enumerate(sys.argv):
+        if a == '--tier':
+            tier = sys.argv[i + 1]; skip.add(sys.argv[i + 1])
+        if a == '--props':
+            props_override = sys.argv[i + 1].split(','); skip.add(sys.argv[i + 1])
+        if a == '--par':
+            par = int(sys.argv[i + 1]); skip.add(sys.argv[i + 1])
+    args = [a for a in args if a not in skip]
+    pat = args[0] if args else '.'
+    names = [d for d in sorted(os.listdir(os.path.join(VERIF, 'seeded')))
+             if re.search(pat, d) and os.path.exists(os.path.join(VERIF, 'seeded', d, 'meta.json'))]
+    jobs = max(2, 14 // par)
+    with ThreadPoolExecutor(max_workers=par) as ex:
+        for d, det, line in ex.map(lambda n: one(n, tier, props_override, jobs), names):
+            print(f'{d:45s} {line}', flush=True)
     return 0
 
 
